@@ -59,6 +59,11 @@ func NewSkewNormalDistribution(xi Vector, omega Matrix, alpha Vector, scale Vect
     (n != m) {
     return nil, fmt.Errorf("NewSkewNormalDistribution(): Parameter dimensions do not match!")
   }
+  for i := 0; i < n; i++ {
+    if scale.At(i).GetFloat64() <= 0.0 {
+      return nil, fmt.Errorf("NewSkewNormalDistribution(): scale must be positive!")
+    }
+  }
   // parameters for the multivariate normal
   // kappa = diag(s) omega diag(s)
   kappa := NullDenseMatrix(t, n, n)
